@@ -21,23 +21,94 @@ theorem stepOf_dictSet (steps : List (List Nat × Nat)) (ip ip' : List Nat) (n :
 
 /-! ## one `stepK` call -/
 
+/-- the patch of step 6 -/
+def patch6 (cs hw fw sn : List Nat) : Patch :=
+  [(Key.ofName Gen.Proto.rdacFirmwareKey, .str fw), (Key.ofName Gen.Proto.rdacHardwareKey, .str hw),
+   (Key.ofName Gen.Proto.rdacCallsignKey, .str cs), (Key.ofName Gen.Proto.rdacSerialnoKey, .str sn)]
+
+/-- the patch of step 10 (the attribute names are crossed in the source: `rx_freq` gets the first
+frequency the code calls `tx_freq`) -/
+def patch10 (data : Bytes) : Patch :=
+  [(Key.ofName Gen.Proto.rdacRxFreqKey, .int (leInt data 29 33)), (Key.ofName Gen.Proto.rdacTxFreqKey, .int (leInt data 33 37))]
+
+/-- `save(match_incoming(a), p)` as the model writes it -/
+def saveFound (store : Store) (a : Val) (p : Patch) : Store :=
+  (Storage.step store (.save
+    (match (Storage.step store (.matchIncoming a false [])).2 with | .obj i => some i | _ => Option.none) p)).1
+
+/-- the body of a step, case by case -/
+theorem body_cases (store : Store) (cur nxt : Nat) (a : Addr) (data : Bytes) (f : Bool) :
+    (cur = 3 ∧ body store cur nxt a data f =
+      ((Storage.step store (.matchIncoming a.val false [(.field .dmrId, .int (leInt data 18 21))])).1,
+        some nxt, sends (requestsOf 3) a, .ok)) ∨
+    (cur = 6 ∧
+      ((∃ cs hw fw sn, body store cur nxt a data f =
+          (saveFound store a.val (patch6 cs hw fw sn), some nxt, sends (requestsOf 6) a, .ok)) ∨
+       body store cur nxt a data f = (store, Option.none, [], .err .unicodeDecodeError))) ∨
+    (cur = 10 ∧
+      ((data.length ≤ 26 ∧ body store cur nxt a data f = (store, Option.none, [], .err .indexError)) ∨
+       (26 < data.length ∧ body store cur nxt a data f =
+          ((Storage.step store (.matchIncoming a.val false (patch10 data))).1, some nxt, sends (requestsOf 10) a, .ok)))) ∨
+    (cur = 13 ∧
+      ((f = true ∧ body store cur nxt a data f = (store, some nxt, [], .err .snmpError)) ∨
+       (f = false ∧ ∃ r, store.recOf a.val = some r ∧
+          body store cur nxt a data f = (store, some nxt, [.callback r.id], .ok)) ∨
+       (f = false ∧ store.recOf a.val = Option.none ∧
+          body store cur nxt a data f = (store, some nxt, [], .err .attributeError)))) ∨
+    (cur ≠ 3 ∧ cur ≠ 6 ∧ cur ≠ 10 ∧ cur ≠ 13 ∧
+      body store cur nxt a data f = (store, some nxt, sends (requestsOf cur) a, .ok)) := by
+  by_cases h3 : cur = 3
+  · subst h3; exact Or.inl ⟨rfl, rfl⟩
+  by_cases h6 : cur = 6
+  · subst h6
+    refine Or.inr (Or.inl ⟨rfl, ?_⟩)
+    cases hcs : decodeField data 88 108 with
+    | none => right; simp [body, hcs]
+    | some cs =>
+      cases hhw : decodeField data 120 184 with
+      | none => right; simp [body, hcs, hhw]
+      | some hw =>
+        cases hfw : decodeField data 56 88 with
+        | none => right; simp [body, hcs, hhw, hfw]
+        | some fw =>
+          cases hsn : decodeField data 184 216 with
+          | none => right; simp [body, hcs, hhw, hfw, hsn]
+          | some sn => left; exact ⟨cs, hw, fw, sn, by simp only [body, hcs, hhw, hfw, hsn]; rfl⟩
+  by_cases h10 : cur = 10
+  · subst h10
+    refine Or.inr (Or.inr (Or.inl ⟨rfl, ?_⟩))
+    by_cases hl : data.length ≤ 26
+    · left; exact ⟨hl, by simp [body, hl]⟩
+    · right; exact ⟨by omega, by simp [body, hl, patch10]⟩
+  by_cases h13 : cur = 13
+  · subst h13
+    refine Or.inr (Or.inr (Or.inr (Or.inl ⟨rfl, ?_⟩)))
+    cases f with
+    | true => left; exact ⟨rfl, by simp [body]⟩
+    | false =>
+      right
+      cases hi : store.first (fun r => r.addressIn == a.val) with
+      | none => right; exact ⟨rfl, by simp [Store.recOf, Store.holder, hi], by simp [body, hi]⟩
+      | some i =>
+        cases hr : store.objs[i]? with
+        | none => right; exact ⟨rfl, by simp [Store.recOf, Store.holder, hi, hr], by simp [body, hi, hr]⟩
+        | some r => left; exact ⟨rfl, r, by simp [Store.recOf, Store.holder, hi, hr], by simp [body, hi, hr]⟩
+  · refine Or.inr (Or.inr (Or.inr (Or.inr ⟨h3, h6, h10, h13, ?_⟩)))
+    unfold body
+    split
+    · exact absurd rfl h3
+    · exact absurd rfl h6
+    · exact absurd rfl h10
+    · exact absurd rfl h13
+    · rfl
+
 theorem body_write (store : Store) (cur nxt : Nat) (a : Addr) (data : Bytes) (f : Bool) (n : Nat)
     (h : (body store cur nxt a data f).2.1 = some n) : n = nxt := by
-  unfold body at h
-  split at h
-  · simp only [Option.some.injEq] at h; exact h.symm
-  · split at h
-    · simp only [Option.some.injEq] at h; exact h.symm
-    · cases h
-  · split at h
-    · cases h
-    · simp only [Option.some.injEq] at h; exact h.symm
-  · split at h
-    · simp only [Option.some.injEq] at h; exact h.symm
-    · split at h
-      · split at h <;> (simp only [Option.some.injEq] at h; exact h.symm)
-      · simp only [Option.some.injEq] at h; exact h.symm
-  · simp only [Option.some.injEq] at h; exact h.symm
+  rcases body_cases store cur nxt a data f with ⟨_, e⟩ | ⟨_, ⟨_, _, _, _, e⟩ | e⟩ | ⟨_, ⟨_, e⟩ | ⟨_, e⟩⟩ |
+    ⟨_, ⟨_, e⟩ | ⟨_, _, _, e⟩ | ⟨_, _, e⟩⟩ | ⟨_, _, _, _, e⟩ <;> rw [e] at h <;>
+    first
+      | (simp only [Option.some.injEq] at h; exact h.symm)
+      | cases h
 
 /-- a `stepK` call writes the step dictionary only as the table says, and only after its response
 prefix matched (step 0: unconditionally, value 1) -/
@@ -65,46 +136,33 @@ theorem stepN_write (store : Store) (cur : Nat) (a : Addr) (data : Bytes) (f : B
         · cases h
 
 /-- errors other than the SNMP stub happen before anything is written -/
-theorem body_err_write (store : Store) (cur nxt : Nat) (a : Addr) (data : Bytes) (f : Bool) (e : RErr)
+theorem body_err (store : Store) (cur nxt : Nat) (a : Addr) (data : Bytes) (f : Bool) (e : RErr)
     (h : (body store cur nxt a data f).2.2.2 = .err e) :
-    ((body store cur nxt a data f).2.1 = Option.none ∧ (body store cur nxt a data f).1 = store ∧
-      (body store cur nxt a data f).2.2.1 = [] ∧
-      ((cur = 6 ∧ e = .unicodeDecodeError) ∨ (cur = 10 ∧ e = .indexError ∧ data.length ≤ 26))) ∨
-    (cur = 13 ∧ (body store cur nxt a data f).2.1 = some nxt ∧ (body store cur nxt a data f).1 = store ∧
-      (body store cur nxt a data f).2.2.1 = [] ∧ (e = .snmpError ∨ e = .attributeError)) := by
-  unfold body at h ⊢
-  split
-  · simp at h
-  · split
-    · simp at h
-    · left
-      simp only [RRes.err.injEq] at h
-      exact ⟨rfl, rfl, rfl, Or.inl ⟨rfl, h.symm⟩⟩
-  · split
-    · rename_i hl
-      left
-      simp only [hl, if_true, RRes.err.injEq] at h
-      exact ⟨rfl, rfl, rfl, Or.inr ⟨rfl, h.symm, hl⟩⟩
-    · rename_i hl
-      simp [hl] at h
-  · right
-    split
-    · rename_i hf
-      simp only [hf, if_true, RRes.err.injEq] at h
-      exact ⟨rfl, rfl, rfl, rfl, Or.inl h.symm⟩
-    · rename_i hf
-      simp only [hf, if_false] at h
-      split
-      · split
-        · rename_i i hi r hr
-          simp [hi, hr] at h
-        · rename_i i hi hr
-          simp only [hi, hr, RRes.err.injEq] at h
-          exact ⟨rfl, rfl, rfl, rfl, Or.inr h.symm⟩
-      · rename_i hi
-        simp only [hi, RRes.err.injEq] at h
-        exact ⟨rfl, rfl, rfl, rfl, Or.inr h.symm⟩
-  · simp at h
+    (body store cur nxt a data f).1 = store ∧ (body store cur nxt a data f).2.2.1 = [] ∧
+    (((body store cur nxt a data f).2.1 = Option.none ∧
+        ((cur = 6 ∧ e = .unicodeDecodeError) ∨ (cur = 10 ∧ e = .indexError ∧ data.length ≤ 26))) ∨
+     (cur = 13 ∧ (body store cur nxt a data f).2.1 = some nxt ∧ (e = .snmpError ∨ e = .attributeError))) := by
+  rcases body_cases store cur nxt a data f with ⟨_, e'⟩ | ⟨h6, ⟨_, _, _, _, e'⟩ | e'⟩ | ⟨h10, ⟨hl, e'⟩ | ⟨_, e'⟩⟩ |
+    ⟨h13, ⟨_, e'⟩ | ⟨_, _, _, e'⟩ | ⟨_, _, e'⟩⟩ | ⟨_, _, _, _, e'⟩ <;> rw [e'] at h ⊢
+  · cases h
+  · cases h
+  · simp only [RRes.err.injEq] at h
+    exact ⟨rfl, rfl, Or.inl ⟨rfl, Or.inl ⟨h6, h.symm⟩⟩⟩
+  · simp only [RRes.err.injEq] at h
+    exact ⟨rfl, rfl, Or.inl ⟨rfl, Or.inr ⟨h10, h.symm, hl⟩⟩⟩
+  · cases h
+  · simp only [RRes.err.injEq] at h
+    exact ⟨rfl, rfl, Or.inr ⟨h13, rfl, Or.inl h.symm⟩⟩
+  · cases h
+  · simp only [RRes.err.injEq] at h
+    exact ⟨rfl, rfl, Or.inr ⟨h13, rfl, Or.inr h.symm⟩⟩
+  · cases h
+
+theorem not_mem_sends (l : List Bytes) (a : Addr) (id : Val) : ROut.callback id ∉ sends l a := by
+  intro hm
+  simp only [sends, List.mem_map] at hm
+  obtain ⟨d, _, hd⟩ := hm
+  cases hd
 
 /-- a callback is made only by the body of step 13 -/
 theorem body_callback (store : Store) (cur nxt : Nat) (a : Addr) (data : Bytes) (f : Bool) (id : Val)
@@ -112,38 +170,18 @@ theorem body_callback (store : Store) (cur nxt : Nat) (a : Addr) (data : Bytes) 
     cur = 13 ∧ f = false ∧ (body store cur nxt a data f).2.2.1 = [.callback id] ∧
     (body store cur nxt a data f).2.2.2 = .ok ∧ (body store cur nxt a data f).2.1 = some nxt ∧
     ∃ r, store.recOf a.val = some r ∧ r.id = id := by
-  have hs : ∀ (l : List Bytes), ROut.callback id ∉ sends l a := by
-    intro l hm
-    simp only [sends, List.mem_map] at hm
-    obtain ⟨d, _, hd⟩ := hm
-    cases hd
-  unfold body at h ⊢
-  split
-  · exact absurd h (hs _)
-  · split
-    · exact absurd h (hs _)
-    · simp at h
-  · split
-    · simp at h
-    · rename_i hl
-      simp only [hl, if_false] at h
-      exact absurd h (hs _)
-  · split
-    · rename_i hf
-      simp [hf] at h
-    · rename_i hf
-      simp only [hf, if_false] at h
-      split
-      · split
-        · rename_i i hi r hr
-          simp only [hi, hr, List.mem_singleton, ROut.callback.injEq] at h
-          refine ⟨rfl, by simpa using hf, by rw [h], rfl, rfl, r, ?_, h.symm⟩
-          simp only [Store.recOf, Store.holder, hi, Option.bind_some, hr]
-        · rename_i i hi hr
-          simp [hi, hr] at h
-      · rename_i hi
-        simp [hi] at h
-  · exact absurd h (hs _)
+  rcases body_cases store cur nxt a data f with ⟨_, e'⟩ | ⟨h6, ⟨_, _, _, _, e'⟩ | e'⟩ | ⟨h10, ⟨hl, e'⟩ | ⟨_, e'⟩⟩ |
+    ⟨h13, ⟨_, e'⟩ | ⟨hf, r, hr, e'⟩ | ⟨_, _, e'⟩⟩ | ⟨_, _, _, _, e'⟩ <;> rw [e'] at h ⊢
+  · exact absurd h (not_mem_sends _ _ _)
+  · exact absurd h (not_mem_sends _ _ _)
+  · simp at h
+  · simp at h
+  · exact absurd h (not_mem_sends _ _ _)
+  · simp at h
+  · simp only [List.mem_singleton, ROut.callback.injEq] at h
+    exact ⟨h13, hf, by rw [h], rfl, rfl, r, hr, h.symm⟩
+  · simp at h
+  · exact absurd h (not_mem_sends _ _ _)
 
 theorem stepN_callback (store : Store) (cur : Nat) (a : Addr) (data : Bytes) (f : Bool) (id : Val)
     (h : ROut.callback id ∈ (stepN store cur a data f).2.2.1) :
@@ -151,37 +189,41 @@ theorem stepN_callback (store : Store) (cur : Nat) (a : Addr) (data : Bytes) (f 
     (stepN store cur a data f).2.2.2 = .ok ∧ (stepN store cur a data f).2.1 = some 14 ∧
     hasPrefix Gen.Proto.rdacStep12Response data = true ∧
     ∃ r, store.recOf a.val = some r ∧ r.id = id := by
-  unfold stepN at h ⊢
-  split
-  · simp only [sends, List.map_cons, List.map_nil, List.mem_singleton] at h
-    cases h
-  · split
-    · simp at h
-    · split
-      · simp at h
-      · rename_i resp nxt ht
-        split
-        · rename_i hp
-          simp only [hp, if_true] at h
-          obtain ⟨h13, hf, houts, hres, hw, hr⟩ := body_callback _ _ _ _ _ _ _ h
-          subst h13
-          simp only [table, Option.some.injEq, Prod.mk.injEq] at ht
-          obtain ⟨rfl, rfl⟩ := ht
-          exact ⟨rfl, hf, houts, hres, hw, hp, hr⟩
-        · rename_i hp
-          simp [hp] at h
+  by_cases h0 : cur = 0
+  · simp only [stepN, h0, if_true] at h
+    exact absurd h (not_mem_sends _ _ _)
+  by_cases h14 : cur = 14
+  · simp [stepN, h14] at h
+  cases ht : table cur with
+  | none => simp [stepN, h0, h14, ht] at h
+  | some p =>
+    obtain ⟨resp, nxt⟩ := p
+    by_cases hp : hasPrefix resp data = true
+    · have e : stepN store cur a data f = body store cur nxt a data f := by
+        simp [stepN, h0, h14, ht, hp]
+      rw [e] at h ⊢
+      obtain ⟨h13, hf, houts, hres, hw, hr⟩ := body_callback _ _ _ _ _ _ _ h
+      subst h13
+      simp only [table, Option.some.injEq, Prod.mk.injEq] at ht
+      obtain ⟨rfl, rfl⟩ := ht
+      exact ⟨rfl, hf, houts, hres, hw, hp, hr⟩
+    · simp [stepN, h0, h14, ht, hp] at h
 
 /-- step 13 with the expected response and a working SNMP call completes: exactly one callback -/
 theorem stepN_completes (store : Store) (a : Addr) (data : Bytes) (r : Rec)
     (hp : hasPrefix Gen.Proto.rdacStep12Response data = true) (hr : store.recOf a.val = some r) :
     stepN store 13 a data false = (store, some 14, [.callback r.id], .ok) := by
-  simp only [Store.recOf, Store.holder] at hr
-  cases hi : store.first (fun r => r.addressIn == a.val) with
-  | none => rw [hi] at hr; cases hr
-  | some i =>
-    rw [hi] at hr
-    simp only [Option.bind_some] at hr
-    simp [stepN, table, hp, body, hi, hr]
+  rcases body_cases store 13 14 a data false with ⟨h, _⟩ | ⟨h, _⟩ | ⟨h, _⟩ |
+    ⟨_, ⟨hf, _⟩ | ⟨_, r', hr', e'⟩ | ⟨_, hn, _⟩⟩ | ⟨_, _, _, h, _⟩
+  · cases h
+  · cases h
+  · cases h
+  · cases hf
+  · rw [hr] at hr'; cases hr'
+    simp only [stepN, table, hp, if_true]
+    exact e'
+  · rw [hr] at hn; cases hn
+  · exact absurd rfl h
 
 /-! ## the step dictionary after a datagram -/
 
@@ -265,11 +307,7 @@ theorem step_outs_special (s : RState) (a : Addr) (data : Bytes) (f : Bool)
     (h : (data.length = 1 ∧ stepOf s.steps a.ip ≠ 14) ∨ stepOf s.steps a.ip = 14) :
     (step s a data f).2.2 = .ok ∧ (∀ id, ROut.callback id ∉ (step s a data f).2.1) ∧
     (step s a data f).1.store = (Storage.step s.store (.matchIncoming a.val true [])).1 := by
-  have hs : ∀ (l : List Bytes) id, ROut.callback id ∉ sends l a := by
-    intro l id hm
-    simp only [sends, List.mem_map] at hm
-    obtain ⟨d, _, hd⟩ := hm
-    cases hd
+  have hs : ∀ (l : List Bytes) id, ROut.callback id ∉ sends l a := fun l id => not_mem_sends l a id
   unfold step
   simp only
   split
@@ -365,27 +403,25 @@ theorem body_store {store : Store} (h : Inv store) (cur nxt : Nat) (a : Addr) (d
   have hsame : Inv store ∧ (∀ a', a' ≠ a.val → store.recOf a' = store.recOf a') ∧
       (∃ r', store.recOf a.val = some r' ∧ r'.id = r.id) ∧ store.objs.length = store.objs.length :=
     ⟨h, fun _ _ => rfl, ⟨r, hr, rfl⟩, rfl⟩
-  unfold body
-  split
+  rcases body_cases store cur nxt a data f with ⟨_, e'⟩ | ⟨h6, ⟨cs, hw, fw, sn, e'⟩ | e'⟩ | ⟨h10, ⟨hl, e'⟩ | ⟨_, e'⟩⟩ |
+    ⟨h13, ⟨_, e'⟩ | ⟨_, _, _, e'⟩ | ⟨_, _, e'⟩⟩ | ⟨_, _, _, _, e'⟩ <;> rw [e']
   · obtain ⟨h1, h2, h3, h4⟩ := patch_store h a.val _ (safe_dmr (.int (leInt data 18 21))) r hr
     exact ⟨h1, h2, ⟨_, h3, applyPatch_safe_id _ _ (safe_dmr _)⟩, h4⟩
-  · split
-    · rename_i cs hw fw sn _ _ _ _
-      simp only
-      rw [save_found_eq h a.val _ (safe_step6 _ _ _ _) r hr]
-      obtain ⟨h1, h2, h3, h4⟩ := patch_store h a.val _ (safe_step6 (.str fw) (.str hw) (.str cs) (.str sn)) r hr
-      exact ⟨h1, h2, ⟨_, h3, applyPatch_safe_id _ _ (safe_step6 _ _ _ _)⟩, h4⟩
-    · exact hsame
-  · split
-    · exact hsame
-    · obtain ⟨h1, h2, h3, h4⟩ := patch_store h a.val _
-        (safe_step10 (.int (leInt data 29 33)) (.int (leInt data 33 37))) r hr
-      exact ⟨h1, h2, ⟨_, h3, applyPatch_safe_id _ _ (safe_step10 _ _)⟩, h4⟩
-  · split
-    · exact hsame
-    · split
-      · split <;> exact hsame
-      · exact hsame
+  · have hs := safe_step6 (.str fw) (.str hw) (.str cs) (.str sn)
+    have : saveFound store a.val (patch6 cs hw fw sn) =
+        (Storage.step store (.matchIncoming a.val false (patch6 cs hw fw sn))).1 :=
+      save_found_eq h a.val _ hs r hr
+    simp only [this]
+    obtain ⟨h1, h2, h3, h4⟩ := patch_store h a.val _ hs r hr
+    exact ⟨h1, h2, ⟨_, h3, applyPatch_safe_id _ _ hs⟩, h4⟩
+  · exact hsame
+  · exact hsame
+  · have hs := safe_step10 (.int (leInt data 29 33)) (.int (leInt data 33 37))
+    obtain ⟨h1, h2, h3, h4⟩ := patch_store h a.val (patch10 data) hs r hr
+    exact ⟨h1, h2, ⟨_, h3, applyPatch_safe_id _ _ hs⟩, h4⟩
+  · exact hsame
+  · exact hsame
+  · exact hsame
   · exact hsame
 
 theorem stepN_store {store : Store} (h : Inv store) (cur : Nat) (a : Addr) (data : Bytes) (f : Bool) (r : Rec)
